@@ -91,6 +91,15 @@ class CallMixin:
             if f.id in self.specfuncs:
                 args = [self.pure(a, st) for a in node.args]
                 return k(st, self.specfuncs[f.id](self, st, *args))
+        if isinstance(f, ast.Name) and f.id in ('any', 'all') and len(node.args) == 1 and not node.keywords \
+                and isinstance(node.args[0], (ast.GeneratorExp, ast.ListComp)) and st.lookup(f.id) is None:
+            # any/all over a comprehension: a bounded quantifier over the source indices (no intermediate list)
+            src, i, cond, kv = self.comp_parts(node.args[0], st)
+            if kv is None:
+                return k(st, VBool(f.id == 'all'))
+            t = self.truth(kv[1], st)
+            rng = z3.And(0 <= i, i < src.n, cond)
+            return k(st, VBool(z3.Exists([i], z3.And(rng, t)) if f.id == 'any' else z3.ForAll([i], z3.Implies(rng, t))))
         whole = ast.unparse(node)
         if not self.spec and self.cur is not None:
             cs = self.cur[0].callsites.get(whole)
@@ -125,6 +134,8 @@ class CallMixin:
                 return self.call_method(fv.data['recv'], fv.data['name'], args, kws, st, node, k)
             if kind == 'handler':
                 return fv.data['call'](self, st, node, args, kws, k)
+        if isinstance(fv, VObj) and fv.sort in self.callable_sorts:
+            return k(st, self.callable_sorts[fv.sort](self, st, fv, args))
         if isinstance(fv, VClass):
             name = fv.name
             if name.split('.')[-1] in EXC_PARENT and name not in ('object',):
